@@ -63,11 +63,15 @@ func main() {
 			Suite string `json:"suite"`
 			Input string `json:"input"`
 			Seed  uint64 `json:"seed"`
+			Tier  string `json:"tier"`
 		}
 		if err := json.Unmarshal(b, &rep); err != nil {
 			fatal("replay: %v", err)
 		}
 		R.seed = rep.Seed
+		if rep.Tier != "" {
+			R.tier = rep.Tier
+		}
 		R.onlySuite, R.onlyInput = rep.Suite, rep.Input
 	}
 	base := newRng(R.seed)
